@@ -35,7 +35,8 @@ var genericResp = []byte("HTTP/1.1 200 OK\r\nContent-Length: 7\r\nX-Generic: yes
 
 type Scenario struct {
 	ID     int    `json:"id"`
-	Kind   string `json:"kind"`             // truncate | garbage | dial | client
+	Kind   string `json:"kind"`             // truncate | garbage | dial | client | mitm
+	Follow string `json:"follow,omitempty"` // kind mitm: what the client sends after the 200 to its CONNECT
 	Script string `json:"script,omitempty"` // response script / corpus entry name
 	K      int    `json:"k"`                // bytes of the script the origin writes before it closes (origin kinds); prefix length (client kind, -1: corruption)
 	Dial   string `json:"dial,omitempty"`   // refused | accept_close (kind dial)
@@ -252,6 +253,8 @@ func scenarios(tier string) ([]Scenario, map[string]int) {
 			}
 		}
 	}
+	// 6. client byte streams against a proxy with MITM enabled
+	mitmScenarios(tier, add)
 	for i := range list {
 		s := &list[i]
 		if len(list[i].Script) > 0 && (s.Script == "oversized_header" || s.Script == "huge_method" || s.Script == "long_uri" || s.Script == "long_header") {
@@ -358,6 +361,9 @@ func runScenario(s *Scenario, kind string, quiet time.Duration) *runOut {
 	corpora()
 	if s.Kind == "client" {
 		return runClientStream(s, kind, quiet)
+	}
+	if s.Kind == "mitm" {
+		return runMITMStream(s, kind, quiet)
 	}
 	out := &runOut{}
 	rec := &recorder{}
@@ -763,7 +769,7 @@ func runCase(s *Scenario) *h1harness.CaseResult {
 	res.C["scenarios"]++
 	res.C["kind_"+s.Kind]++
 	res.C["origin_requests"] += int64(o.origin)
-	if s.K > 0 || s.Kind == "dial" || s.K == -1 {
+	if s.K > 0 || s.Kind == "dial" || s.K == -1 || s.Kind == "mitm" {
 		res.C["nontrivial"]++
 	}
 	res.K["outcomes"] = []string{s.Kind + ":" + o.outcome}
@@ -834,6 +840,9 @@ func main() {
 		if s.Kind == "client" {
 			cls = "client_stream"
 		}
+		if s.Kind == "mitm" {
+			cls = "mitm_client_stream:" + mitmClass(s)
+		}
 		return cls + ":crash", fmt.Sprintf("scenario %s terminates the proxy process: %s", describe(s), tail(stderr, 1500)), s
 	})
 	if agg.EngineErr != "" {
@@ -858,7 +867,7 @@ func main() {
 	rep.Coverage["distinct_nontrivial"] = rep.Counter("nontrivial")
 	rep.Coverage["distinct_outcomes"] = len(agg.Keys["outcomes"])
 	rep.Coverage["exhaustive"] = rep.Incomplete == ""
-	rep.Coverage["rule"] = "truncate: response script x client protocol x {fresh, reused upstream connection} x {GET, POST} x every offset k in 0..len(script) (origin writes k bytes, closes); dial: {refused, accepted-then-closed} x method; garbage: 20 non-HTTP/malformed origin answers x every prefix (oversized header: 3 offsets); client: 35 client byte streams x every prefix (3 oversized ones: listed offsets) and every single-byte corruption (replacement set) of 3 valid requests; every scenario continues with a well-formed request for a marker response on the same client connection. Non-trivial: the fault happens after at least one byte (k > 0), or is a dial fault or a corruption."
+	rep.Coverage["rule"] = "truncate: response script x client protocol x {fresh, reused upstream connection} x {GET, POST} x every offset k in 0..len(script) (origin writes k bytes, closes); dial: {refused, accepted-then-closed} x method; garbage: 20 non-HTTP/malformed origin answers x every prefix (oversized header: 3 offsets); client: 35 client byte streams x every prefix (3 oversized ones: listed offsets) and every single-byte corruption (replacement set) of 3 valid requests; mitm: proxy with SetMITM, 23 CONNECT request-line/Host shapes x 9 continuations after the 200 (ClientHello with SNI / without SNI / TLS 1.2 without SNI, plaintext request, two kinds of garbage, a lone 0x16, close, close without reading) and a no-SNI ClientHello cut at every offset, each followed by a marker request on a fresh connection; every other scenario continues with a well-formed request for a marker response on the same client connection. Non-trivial: the fault happens after at least one byte (k > 0), or is a dial fault or a corruption."
 	rep.Coverage["bounds"] = fmt.Sprintf("tier %s: %d scenarios %v; scripts %d; one client connection (+1 fresh probe connection for client streams); loopback-TCP re-run of every 9th scenario", tier, len(list), fams, len(scripts(tier)))
 	rep.Assumptions = []string{
 		"an origin that stalls without closing is not modelled (would need the proxy's 5-minute timeout)",
